@@ -215,7 +215,7 @@ class Ctx:
         return mism
 
     # ------------------------------------------------- binding self-test (./selftest)
-    OBS_FIELDS = ("out", "back", "eff", "posts", "file", "after", "afteruid", "o", "iafter", "prof", "endfile", "hasattr", "default")
+    OBS_FIELDS = ("out", "back", "eff", "posts", "file", "after", "afteruid", "o", "iafter", "prof", "endfile", "hasattr", "default", "pw", "leg", "store", "skip")
 
     def _corruption_selftest(self, module, events, mism, timeout, env, cfg):
         """corrupt ONE recorded observation in each of a sample of accepted events and expect the trace spec
